@@ -9,7 +9,8 @@
 //!         | "row1" (the model's single-observation API, one call per id)
 //!   ly  = "c" | "f" (column-major) | "rs" (every 2nd row of a bigger buffer) | "rev" (rows stored
 //!         in reverse, negative stride) | "cs" (every 2nd column of a bigger buffer)
-//! Every call is logged as integer codes (labels exactly, floats as round(v*1e6)); the dataset
+//! Every call is logged as integer codes (labels exactly, floats as round(v*1e6); unbounded float outputs
+//! of *extreme* rows -- a coordinate beyond +-16 -- as round(v*1e3), see `scale`); the dataset
 //! forms also log the records they hand back. Wrapper kinds additionally log what each member
 //! model predicts for each pool row alone, and the Platt parameters. No judgement happens here.
 use linfa::composing::platt_scaling::Platt;
@@ -29,16 +30,40 @@ use vh::*;
 // encodings
 
 const S6: f64 = 1e6;
+const S3: f64 = 1e3;
 
-/// float -> integer code at S = 1e6; non-finite / too large values become sentinels >= 2e9
+/// A query row is "extreme" when some coordinate exceeds 16 in absolute value (pool cell > 64 quarter
+/// units). Unbounded float outputs of such rows are logged at S = 1e3 instead of 1e6 (they are 1e2..1e4
+/// times larger); probabilities and labels are logged as always. The trace spec applies the same rule.
+fn ext_cells(row: &[i64]) -> bool {
+    row.iter().any(|c| c.abs() > 64)
+}
+fn ext_vals<F: Fl>(row: ArrayView1<F>) -> bool {
+    row.iter().any(|v| v.to64().abs() > 16.0)
+}
+fn scale(ext: bool) -> f64 {
+    if ext {
+        S3
+    } else {
+        S6
+    }
+}
+fn at(ext: &[bool], p: usize) -> bool {
+    ext.get(p).copied().unwrap_or(false)
+}
 fn code(v: f64) -> Value {
+    code_s(v, S6)
+}
+
+/// float -> integer code at scale s; non-finite / too large values become sentinels >= 2e9
+fn code_s(v: f64, s: f64) -> Value {
     if v.is_nan() {
         return json!(2000000001i64);
     }
     if v.is_infinite() {
         return json!(if v > 0.0 { 2000000002i64 } else { 2000000003i64 });
     }
-    let x = (v * S6).round();
+    let x = (v * s).round();
     if x.abs() >= 1073741824.0 {
         return json!(2000000004i64);
     }
@@ -47,11 +72,11 @@ fn code(v: f64) -> Value {
 
 /// one code vector per output row
 trait Enc {
-    fn enc(&self) -> Vec<Value>;
+    fn enc(&self, ext: &[bool]) -> Vec<Value>;
     fn width(&self) -> usize;
 }
 impl Enc for Array1<usize> {
-    fn enc(&self) -> Vec<Value> {
+    fn enc(&self, ext: &[bool]) -> Vec<Value> {
         self.iter().map(|x| json!([*x as i64])).collect()
     }
     fn width(&self) -> usize {
@@ -59,7 +84,7 @@ impl Enc for Array1<usize> {
     }
 }
 impl Enc for Array1<bool> {
-    fn enc(&self) -> Vec<Value> {
+    fn enc(&self, ext: &[bool]) -> Vec<Value> {
         self.iter().map(|x| json!([*x as i64])).collect()
     }
     fn width(&self) -> usize {
@@ -67,23 +92,23 @@ impl Enc for Array1<bool> {
     }
 }
 impl Enc for Array1<f64> {
-    fn enc(&self) -> Vec<Value> {
-        self.iter().map(|x| json!([code(*x)])).collect()
+    fn enc(&self, ext: &[bool]) -> Vec<Value> {
+        self.iter().enumerate().map(|(p, x)| json!([code_s(*x, scale(at(ext, p)))])).collect()
     }
     fn width(&self) -> usize {
         1
     }
 }
 impl Enc for Array1<f32> {
-    fn enc(&self) -> Vec<Value> {
-        self.iter().map(|x| json!([code(*x as f64)])).collect()
+    fn enc(&self, ext: &[bool]) -> Vec<Value> {
+        self.iter().enumerate().map(|(p, x)| json!([code_s(*x as f64, scale(at(ext, p)))])).collect()
     }
     fn width(&self) -> usize {
         1
     }
 }
 impl Enc for Array1<Pr> {
-    fn enc(&self) -> Vec<Value> {
+    fn enc(&self, ext: &[bool]) -> Vec<Value> {
         self.iter().map(|x| json!([code(**x as f64)])).collect()
     }
     fn width(&self) -> usize {
@@ -91,23 +116,23 @@ impl Enc for Array1<Pr> {
     }
 }
 impl Enc for Array2<f64> {
-    fn enc(&self) -> Vec<Value> {
-        self.outer_iter().map(|r| Value::Array(r.iter().map(|x| code(*x)).collect())).collect()
+    fn enc(&self, ext: &[bool]) -> Vec<Value> {
+        self.outer_iter().enumerate().map(|(p, r)| Value::Array(r.iter().map(|x| code_s(*x, scale(at(ext, p)))).collect())).collect()
     }
     fn width(&self) -> usize {
         self.ncols()
     }
 }
 impl Enc for Array2<f32> {
-    fn enc(&self) -> Vec<Value> {
-        self.outer_iter().map(|r| Value::Array(r.iter().map(|x| code(*x as f64)).collect())).collect()
+    fn enc(&self, ext: &[bool]) -> Vec<Value> {
+        self.outer_iter().enumerate().map(|(p, r)| Value::Array(r.iter().map(|x| code_s(*x as f64, scale(at(ext, p)))).collect())).collect()
     }
     fn width(&self) -> usize {
         self.ncols()
     }
 }
 impl Enc for Array2<usize> {
-    fn enc(&self) -> Vec<Value> {
+    fn enc(&self, ext: &[bool]) -> Vec<Value> {
         self.outer_iter().map(|r| Value::Array(r.iter().map(|x| json!(*x as i64)).collect())).collect()
     }
     fn width(&self) -> usize {
@@ -279,26 +304,26 @@ fn call_event(k: usize, outs: Vec<Value>, w: usize, back: Option<(Value, bool)>)
 type Row1<'a, F> = Option<&'a dyn Fn(ArrayView1<F>) -> Value>;
 
 macro_rules! own_forms {
-    ($m:expr, $F:ty, $T:ty, $c:expr, $bk:expr, $n:expr) => {{
+    ($m:expr, $F:ty, $T:ty, $c:expr, $bk:expr, $n:expr, $ext:expr) => {{
         let x: Array2<$F> = $bk.slice_move(slinfo(&$c.ly));
         match $c.fm.as_str() {
             "ref_arr" => {
                 let y: $T = $m.predict(&x);
-                (y.enc(), y.width(), None)
+                (y.enc($ext), y.width(), None)
             }
             "own_arr" => {
                 let d: DatasetBase<Array2<$F>, $T> = $m.predict(x);
-                (d.targets.enc(), d.targets.width(), Some(back_rows(d.records.view())))
+                (d.targets.enc($ext), d.targets.width(), Some(back_rows(d.records.view())))
             }
             "ref_ds" => {
                 let ds = DatasetBase::new(x, Array1::<f64>::zeros($n));
                 let y: $T = $m.predict(&ds);
-                (y.enc(), y.width(), None)
+                (y.enc($ext), y.width(), None)
             }
             "own_ds" => {
                 let ds = DatasetBase::new(x, Array1::<f64>::zeros($n));
                 let d: DatasetBase<Array2<$F>, $T> = $m.predict(ds);
-                (d.targets.enc(), d.targets.width(), Some(back_rows(d.records.view())))
+                (d.targets.enc($ext), d.targets.width(), Some(back_rows(d.records.view())))
             }
             "inplace" | "dirty" => {
                 let mut y: $T = PredictInplace::<Array2<$F>, $T>::default_target($m, &x);
@@ -306,33 +331,33 @@ macro_rules! own_forms {
                     y.dirty();
                 }
                 PredictInplace::<Array2<$F>, $T>::predict_inplace($m, &x, &mut y);
-                (y.enc(), y.width(), None)
+                (y.enc($ext), y.width(), None)
             }
             other => panic!("harness: unknown form {}", other),
         }
     }};
 }
 macro_rules! view_forms {
-    ($m:expr, $F:ty, $T:ty, $c:expr, $bk:expr, $n:expr) => {{
+    ($m:expr, $F:ty, $T:ty, $c:expr, $bk:expr, $n:expr, $ext:expr) => {{
         let x: ArrayView2<$F> = $bk.slice(slinfo(&$c.ly));
         match $c.fm.as_str() {
             "ref_arr" => {
                 let y: $T = $m.predict(&x);
-                (y.enc(), y.width(), None)
+                (y.enc($ext), y.width(), None)
             }
             "own_arr" => {
                 let d: DatasetBase<ArrayView2<$F>, $T> = $m.predict(x);
-                (d.targets.enc(), d.targets.width(), Some(back_rows(d.records.view())))
+                (d.targets.enc($ext), d.targets.width(), Some(back_rows(d.records.view())))
             }
             "ref_ds" => {
                 let ds = DatasetBase::new(x, Array1::<f64>::zeros($n));
                 let y: $T = $m.predict(&ds);
-                (y.enc(), y.width(), None)
+                (y.enc($ext), y.width(), None)
             }
             "own_ds" => {
                 let ds = DatasetBase::new(x, Array1::<f64>::zeros($n));
                 let d: DatasetBase<ArrayView2<$F>, $T> = $m.predict(ds);
-                (d.targets.enc(), d.targets.width(), Some(back_rows(d.records.view())))
+                (d.targets.enc($ext), d.targets.width(), Some(back_rows(d.records.view())))
             }
             "inplace" | "dirty" => {
                 let mut y: $T = PredictInplace::<ArrayView2<$F>, $T>::default_target($m, &x);
@@ -340,7 +365,7 @@ macro_rules! view_forms {
                     y.dirty();
                 }
                 PredictInplace::<ArrayView2<$F>, $T>::predict_inplace($m, &x, &mut y);
-                (y.enc(), y.width(), None)
+                (y.enc($ext), y.width(), None)
             }
             other => panic!("harness: unknown form {}", other),
         }
@@ -361,6 +386,7 @@ macro_rules! run_prog {
             let k = k0 + 1;
             let rows: Vec<&Vec<i64>> = c.ids.iter().map(|i| &$inp.pool[*i - 1]).collect();
             let n = rows.len();
+            let ext: Vec<bool> = rows.iter().map(|r| ext_cells(r)).collect();
             let r = guarded(|| -> (Vec<Value>, usize, Option<(Value, bool)>) {
                 let bk: Array2<$F> = backing::<$F>(&rows, $inp.nf, &c.ly);
                 if c.fm == "row1" {
@@ -369,9 +395,9 @@ macro_rules! run_prog {
                     return (x.outer_iter().map(|r| f(r)).collect(), 1, None);
                 }
                 if c.st == "own" {
-                    own_forms!($m, $F, $T, c, bk, n)
+                    own_forms!($m, $F, $T, c, bk, n, &ext)
                 } else {
-                    run_prog!(@view $views, $m, $F, $T, c, bk, n)
+                    run_prog!(@view $views, $m, $F, $T, c, bk, n, &ext)
                 }
             });
             match r {
@@ -383,10 +409,10 @@ macro_rules! run_prog {
             }
         }
     }};
-    (@view true, $m:expr, $F:ty, $T:ty, $c:expr, $bk:expr, $n:expr) => {
-        view_forms!($m, $F, $T, $c, $bk, $n)
+    (@view true, $m:expr, $F:ty, $T:ty, $c:expr, $bk:expr, $n:expr, $ext:expr) => {
+        view_forms!($m, $F, $T, $c, $bk, $n, $ext)
     };
-    (@view false, $m:expr, $F:ty, $T:ty, $c:expr, $bk:expr, $n:expr) => {
+    (@view false, $m:expr, $F:ty, $T:ty, $c:expr, $bk:expr, $n:expr, $ext:expr) => {
         panic!("harness: model has no view forms")
     };
 }
@@ -530,7 +556,7 @@ fn member_events<T: Enc>(ev: &mut Vec<Value>, inp: &Inp, j: usize, m: &dyn Predi
         let r = guarded(|| {
             let mut y = m.default_target(&x);
             m.predict_inplace(&x, &mut y);
-            y.enc()
+            y.enc(&[ext_cells(row)])
         });
         match r {
             Ok(o) if o.len() == 1 => ev.push(json!({"ev": "member", "j": j, "id": i + 1, "out": o[0]})),
@@ -755,7 +781,7 @@ fn run(case: &Value) -> Vec<Value> {
                     let m = p.fit(&ds).expect("harness: svr fit");
                     let r1 = |r: ArrayView1<$F>| -> Value {
                         let v: $F = m.predict(r);
-                        json!([code(v.to64())])
+                        json!([code_s(v.to64(), scale(ext_vals(r)))])
                     };
                     run_prog!(ev, inp, &m, $F, Array1<$F>, Some(&r1), views);
                 }};
@@ -791,7 +817,7 @@ fn run(case: &Value) -> Vec<Value> {
             for (i, row) in inp.pool.iter().enumerate() {
                 let x: Array2<f64> = backing::<f64>(&[row], inp.nf, "c");
                 let dv = m.weighted_sum(&x.row(0)) - m.rho;
-                ev.push(json!({"ev": "member", "j": 1, "id": i + 1, "out": [code(dv)]}));
+                ev.push(json!({"ev": "member", "j": 1, "id": i + 1, "out": [code_s(dv, scale(ext_cells(row)))]}));
             }
             let r1 = |r: ArrayView1<f64>| -> Value {
                 let p: Pr = m.predict(r);
